@@ -201,19 +201,26 @@ def count_audit_visits(data):
     from skops.io import get_untrusted_types
 
     n = [0]
-    real = A.Node.get_unsafe_set
+    classes = {A.Node} | {c for c in A.NODE_TYPE_MAPPING.values()}
+    saved = []
+    for c in classes:
+        for k in c.__mro__:
+            if "get_unsafe_set" in k.__dict__ and not any(k is s_[0] for s_ in saved):
+                real = k.__dict__["get_unsafe_set"]
 
-    def counting(self):
-        n[0] += 1
-        return real(self)
+                def counting(self, _real=real):
+                    n[0] += 1
+                    return _real(self)
 
-    A.Node.get_unsafe_set = counting
+                saved.append((k, real))
+                setattr(k, "get_unsafe_set", counting)
     try:
         t = time.time()
         get_untrusted_types(data=data)
         return n[0], time.time() - t
     finally:
-        A.Node.get_unsafe_set = real
+        for k, real in saved:
+            setattr(k, "get_unsafe_set", real)
 
 
 # ------------------------------------------------------------------------------------------ check
@@ -270,13 +277,14 @@ def run(ctx):
         meta.append(dict(base=name, mutations=tags))
     limit = 20.0
     results = fuzzworker.run_parallel(batch, limit=limit, workers=16)
-    hist, kinds = {}, {}
+    hist, kinds, depth_hist = {}, {}, {}
     slowest = 0.0
     import base64
 
     for i, x in enumerate(results):
-        tagk = "+".join(t.split(":")[0] for t in meta[i]["mutations"]) or "none"
-        kinds[tagk] = kinds.get(tagk, 0) + 1
+        for t in meta[i]["mutations"]:
+            kinds[t] = kinds.get(t, 0) + 1
+        depth_hist[len(meta[i]["mutations"])] = depth_hist.get(len(meta[i]["mutations"]), 0) + 1
         rep = dict(kind="mutant", base=meta[i]["base"], mutations=meta[i]["mutations"], archive_b64=base64.b64encode(batch[i]).decode()
                    if len(batch[i]) < 200000 else None)
         if x is None:
@@ -326,7 +334,7 @@ def run(ctx):
              "30-3000, wrong member refs, loaders, protocol, shapes, widened lists, names, nested id sharing), 40% stacked 2-4 deep; each runs "
              "get_untrusted_types, visualize and loads(trusted=reported) in a forked worker (20 s limit, 6 GB address space, dangerous names blocked): "
              "exit status, exception class, cwd/environ/sys.path/umask/global numpy RNG/files before vs after; schema-level model outcome compared",
-        samples=[meta[0], meta[-1]], mutation_kinds=kinds, outcome_histogram=dict(sorted(hist.items(), key=lambda kv: -kv[1])[:40]),
+        samples=[meta[0], meta[-1]], mutation_kinds=kinds, stack_depths=depth_hist, outcome_histogram=dict(sorted(hist.items(), key=lambda kv: -kv[1])[:40]),
         slowest_call_seconds=slowest, audit_visits_family=visits, audit_family_exponential=exponential,
         correspondence_mismatches=len(mism), model_outcomes_compared=len(res["obs"]), wall=round(time.time() - t0, 1))
     ctx.assumptions += [
